@@ -484,15 +484,39 @@ theorem ssp_select_optimal (S : List Pt) (r : Pt) (k : Nat) (hS : ∀ p ∈ S, p
   ⟨(select_optimal hS hr hle hk hkF).2.1, select_eq_bestSubsetHv hS hr hle hk hkF⟩
 
 open SharkVerif.SSP in
-/-- … and for the operator **as written in the C++** (comparator regenerated from the source) on inputs with pairwise
-distinct first coordinates.  `_partial`: with equal first coordinates the comparator of the C++ (`f2 < rhs.f1`) is
-not a strict weak order — finding C13-SSP-LEXLESS, 17 such points make `std::sort` read out of bounds — so no
-statement about `std::sort` is possible there; the theorem above is what holds after the one-token repair. -/
-theorem ssp_select_optimal_partial (S : List Pt) (r : Pt) (k : Nat) (hS : ∀ p ∈ S, p.length = 2) (hr : r.length = 2)
-    (hle : ∀ p ∈ S, leAll p r = true) (hd : S.Pairwise (fun p q => px p ≠ px q))
-    (hk : 1 ≤ k) (hkF : k ≤ (createFront S r).length) :
-    hvSpec (SharkVerif.SSP.selected S k r) r = bestSubsetHv S k r :=
-  selected_eq_bestSubsetHv_distinct hS hr hle hd hk hkF
+/-- the comparator of the C++ (`Point::operator<`, regenerated from the source on every run into
+`Gen/SspPointLess.lean`) **is** the lexicographic order on `(f1, f2)`.  This holds since /repo d62b7243; should the
+tie-break be edited again this theorem — and with it the two below — fails to compile, i.e. the check breaks. -/
+theorem ssp_comparator_is_lexicographic : ptLt = ptLtFixed := by
+  funext a b
+  unfold ptLt SharkVerif.Gen.sspPointLess ptLtFixed
+  rfl
+
+open SharkVerif.SSP in
+/-- **C13 (two-dimensional subset selection returns a subset of maximal hypervolume)** for the operator **as written
+in the C++**: for every finite 2-D set weakly dominating the reference point — dominated points, duplicates, equal
+first or second coordinates, points on the boundary of the box — and every `1 ≤ k ≤` size of the front, exactly `k`
+flags are set and the selected points have the largest hypervolume among all `k`-element sub-lists.  (Full
+strength: the hypothesis "pairwise distinct first coordinates" of the earlier `_partial` version was forced by the
+comparator defect C13-SSP-LEXLESS, repaired in /repo d62b7243.) -/
+theorem ssp_select_optimal_real (S : List Pt) (r : Pt) (k : Nat) (hS : ∀ p ∈ S, p.length = 2) (hr : r.length = 2)
+    (hle : ∀ p ∈ S, leAll p r = true) (hk : 1 ≤ k) (hkF : k ≤ (createFront S r).length) :
+    (select S k r).count true = k ∧ hvSpec (SharkVerif.SSP.selected S k r) r = bestSubsetHv S k r := by
+  have hsel : select S k r = selectWith ptLtFixed S k r := by
+    unfold select; rw [ssp_comparator_is_lexicographic]
+  have hsd : SharkVerif.SSP.selected S k r = selectedWith ptLtFixed S k r := by
+    unfold SharkVerif.SSP.selected selectedWith; rw [hsel]
+  have hF : createFront S r = createFrontWith ptLtFixed S r := by
+    unfold createFront; rw [ssp_comparator_is_lexicographic]
+  rw [hF] at hkF
+  rw [hsel, hsd]
+  exact ssp_select_optimal S r k hS hr hle hk hkF
+
+/-- history (finding C13-SSP-LEXLESS): the comparator the C++ had before /repo d62b7243, `f2 < rhs.f1` in the
+tie-break, is not irreflexive — it is no strict weak order, `std::sort` with it has undefined behaviour -/
+theorem ssp_old_comparator_not_irreflexive :
+    ∃ a : SharkVerif.SSP.P2, (if a.f1 < a.f1 then true else if a.f1 < a.f1 then false else decide (a.f2 < a.f1)) = true :=
+  ⟨⟨-1, -2, 0⟩, by decide⟩
 
 example : SharkVerif.SSP.IsFront [⟨-5, -1, 0⟩, ⟨-3, -2, 1⟩, ⟨-1, -4, 2⟩] := ⟨by decide, by decide⟩
 
